@@ -173,6 +173,17 @@ for m in sorted(TYPE):
         raise SystemExit("no table entry for " + m)
     emit()
 
+# every instruction whose Run contract admits PcChange must be classified as a branch
+emit("-- classification completeness: generated from the same table as the Run contracts")
+for m in sorted(TYPE):
+    if m in BR2 or m in BR1 or m in ('j', 'jal', 'jalr'):
+        emit(f"lemma pcChangeIsBranch_{m}(): {TYPE[m]}.IsBranch()")
+        if m in BR2 or m in BR1:
+            emit(f"lemma conditional_{m}(): {TYPE[m]}.IsConditionalBranch() && !{TYPE[m]}.IsUnconditionalBranch()")
+        else:
+            emit(f"lemma unconditional_{m}(): {TYPE[m]}.IsUnconditionalBranch() && !{TYPE[m]}.IsConditionalBranch()")
+emit()
+
 head = open(os.path.join(here, "risc_head.txt")).read()
 with open(os.path.join(here, "risc", "zz_contracts_verif.go"), "w") as f:
     f.write(head)
